@@ -24,7 +24,7 @@ pub struct Input {
     pub segments: usize,
 }
 
-pub const FAMILIES: &[&str] = &["rects", "lattice", "circles", "combs", "starholes", "blobs", "tiles", "cloud", "segs", "mantissa"];
+pub const FAMILIES: &[&str] = &["rects", "lattice", "circles", "combs", "starholes", "blobs", "tiles", "donuts", "archipelago", "cloud", "segs", "mantissa"];
 
 fn c(x: f64, y: f64) -> Coord<f64> {
     Coord { x, y }
@@ -218,6 +218,35 @@ pub fn build(spec: &InputSpec) -> Input {
             let b = MultiPolygon::new(vec![rect(0.5, 0.5, k as f64 - 0.25, k as f64 + 0.5), rect(k as f64 - 0.25, 0.0, k as f64 + 1.0, 1.0)]);
             (MultiPolygon::new(ps), b)
         }
+        "donuts" => {
+            // n disjoint polygons, each with one hole (counter-clockwise shells, clockwise holes,
+            // non-dyadic coordinates); the first one has a many-vertex outline
+            let cols = ((n as f64).sqrt().ceil() as usize).max(1);
+            let mut ps = vec![];
+            for i in 0..n {
+                let (cx, cy) = ((i % cols) as f64 * 3.3 + 0.1, (i / cols) as f64 * 3.3 + 0.7);
+                let shell = if i == 0 { ngon(cx, cy, 1.4, 200 + n, 0.05) } else { ngon(cx, cy, 1.4, 4 + i % 5, 0.3) };
+                let mut hole = ngon(cx, cy, 0.5, 3 + i % 4, 0.1);
+                hole.0.reverse();
+                ps.push(Polygon::new(shell, vec![hole]));
+            }
+            let b = MultiPolygon::new(vec![rect(1.0, 1.0, cols as f64 * 3.3 - 1.0, cols as f64 * 1.7)]);
+            a_valid = true;
+            (MultiPolygon::new(ps), b)
+        }
+        "archipelago" => {
+            // very uneven members: a few many-vertex "mainlands" among many small islands, the
+            // big ones at seeded positions of the member list
+            let mut ps: Vec<Polygon<f64>> = (0..n).map(|i| Polygon::new(ngon((i % 40) as f64 * 5.0, (i / 40) as f64 * 5.0, 1.0 + rng.unit(), 3 + i % 6, rng.unit()), vec![])).collect();
+            for _ in 0..1 + rng.below(4) {
+                let at = rng.below(ps.len());
+                let big = 300 + rng.below(1500);
+                ps[at] = Polygon::new(ngon((at % 40) as f64 * 5.0, (at / 40) as f64 * 5.0, 2.0, big, 0.0), vec![]);
+            }
+            let b = MultiPolygon::new(vec![rect(2.0, 2.0, 150.0, 9.0)]);
+            a_valid = true;
+            (MultiPolygon::new(ps), b)
+        }
         "mantissa" => {
             // many small triangles with uniform 53-bit doubles: sums are not exactly
             // representable, so a re-associated fold changes bits
@@ -311,7 +340,7 @@ pub fn sweep_size(rng: &mut Rng, family: &str) -> Option<usize> {
     Some(match family {
         "rects" => pick(rng, &[40, 70, 130, 260]),
         "lattice" => pick(rng, &[8, 9, 12, 16, 23]), // 64, 81, 144, 256, 529 squares
-        "circles" => pick(rng, &[70, 130, 260, 520, 1030, 2100]),
+        "circles" => pick(rng, &[70, 130, 260, 520, 1030, 2100, 4200, 8300]),
         "combs" => pick(rng, &[20, 40, 70, 130]),
         "starholes" => pick(rng, &[70, 130, 260, 520]),
         "blobs" => pick(rng, &[40, 70, 130, 260]),
@@ -341,6 +370,8 @@ pub fn gen_spec(rng: &mut Rng, family: &str, large: u8) -> InputSpec {
         ("rects", _) => 1 + rng.below(14),
         ("starholes", _) => 1 + rng.below(30),
         ("tiles", _) => 1 + rng.below(6),
+        ("donuts", _) => *rng.pick(&[2usize, 5, 20, 70, 130, 260, 300, 520]),
+        ("archipelago", _) => *rng.pick(&[3usize, 10, 40, 96, 130, 260, 520]),
         ("blobs", _) => 1 + rng.below(20),
         ("cloud", _) => {
             if rng.chance(1, 3) {
